@@ -384,6 +384,12 @@ def rule_e8(repo):
     f = repo.func('integral/interval.py', 'Interval.__pow__')
     other = f.params()[1]
     subject = 'eval_expr(%s.start)' % other
+    from ..flow import flow_of
+    e8flow = flow_of(f.node)
+    _plain = globals()['_const_test']
+
+    def _const_test(e, subject, value):          # the value of the exponent may have been given a name (exp_start = eval_expr(other.start))
+        return _plain(e8flow.inline(e), subject, value)
     chain = None
     for n in ast.walk(f.node):
         if isinstance(n, ast.If) and _const_test(n.test, subject, 1) is not None:
@@ -475,11 +481,11 @@ def rule_e9(repo):
                         idx = [i for i, a in enumerate(par.args) if a is x]
                         if idx and idx[0] in (1, 2):
                             ends.add('lower' if idx[0] == 1 else 'upper')
-                if not ends and isinstance(other, ast.Name) and f.parent is not None and other.id in f.params():
-                    # a helper that takes the end as its parameter: the ends it is called with
+                if not ends and isinstance(other, ast.Name) and other.id in f.params():
+                    # a helper (nested, or a function of the module) that takes the end as its parameter: the ends it is called with
                     i = f.params().index(other.id)
-                    outer = f.parent
-                    oflow = flow_of(outer.node)
+                    callers = [f.parent] if f.parent is not None else [g for g in m.all_funcs if g is not f and any(
+                        isinstance(c, ast.Call) and is_name(c.func, f.name) for c in ast.walk(g.node))]
                     # the conditions under which this expression is evaluated inside the helper: (test, branch taken)
                     conds, x, understood = [], b, True
                     while id(x) in parents:
@@ -502,11 +508,16 @@ def rule_e9(repo):
                         if isinstance(arg, ast.Constant) and isinstance(arg.value, bool):
                             return arg.value != neg
                         return None
-                    for c in ast.walk(outer.node):
+                    for outer, c in [(g, c) for g in callers for c in ast.walk(g.node)]:
+                        oflow = flow_of(outer.node)
                         if isinstance(c, ast.Call) and is_name(c.func, f.name) and len(c.args) > i:
                             taken = True
                             for test, branch in conds:
-                                if any(isinstance(n_, ast.Name) and n_.id in f.params() for n_ in ast.walk(test)):
+                                bare = test
+                                while isinstance(bare, ast.UnaryOp) and isinstance(bare.op, ast.Not):
+                                    bare = bare.operand
+                                # only a parameter tested as it is selects between the ends (is_upper / from_below); `pt == POS_INF` asks something else
+                                if isinstance(bare, ast.Name) and bare.id in f.params():
                                     v_ = flag_value(test, c)
                                     if v_ is None:
                                         understood = False
